@@ -573,6 +573,8 @@ class Interp:
             return c.cell(it).data
         if isinstance(it, Ref) and isinstance(c.cell(it).data, list):
             it = tuple(c.cell(it).data)
+        if isinstance(it, range):
+            it = tuple(it)
         if isinstance(it, (tuple, list)):
             items = list(it)
 
